@@ -245,9 +245,9 @@ def regenerate(repo=None):
 
 
 def regenerate_all(repo=None):
-  """every generated Lean file: scalar kernels, class table, validators, vector method bodies (vk/translate_vec.py)."""
+  """every generated Lean file: scalar kernels, class table, validators, vector method bodies (vk/translate_vec.py), set-level glue (vk/translate_sets.py)."""
   out = regenerate(repo)
-  for modname in ('translate_classes', 'translate_validators', 'translate_vec'):
+  for modname in ('translate_classes', 'translate_validators', 'translate_vec', 'translate_sets'):
     try:
       mod = __import__('vk.' + modname, fromlist=['regenerate'])
     except ImportError:
